@@ -61,10 +61,31 @@ func runC01(c *Ctx) {
 				// buffer = first result of the frame reader
 				fromReader := false
 				var readCall *ssa.Call
+				var altReads []*ssa.Call
 				if ex, ok := buf.(*ssa.Extract); ok && ex.Index == 0 {
 					if cl, ok := ex.Tuple.(*ssa.Call); ok {
 						readCall = cl
 						fromReader = true
+					}
+				}
+				// the frame reader chosen by transport in place: a phi of the first results of the alternative reads
+				if ph, ok := buf.(*ssa.Phi); ok && len(ph.Edges) > 0 {
+					all := true
+					for _, e := range ph.Edges {
+						ex, ok := e.(*ssa.Extract)
+						if !ok || ex.Index != 0 {
+							all = false
+							break
+						}
+						cl, ok := ex.Tuple.(*ssa.Call)
+						if !ok || !(callName(cl) == "pkg/dnsutils.ReadRawMsgFromTCP" || callName(cl) == relTransport+".readMsgUdp") {
+							all = false
+							break
+						}
+						altReads = append(altReads, cl)
+					}
+					if all {
+						fromReader, readCall = true, altReads[0]
 					}
 				}
 				c.check(fromReader, key+":buffer", instrPos(in), "the value handed over is the buffer returned by the frame reader", "the value handed to the waiter is not the buffer just read")
@@ -114,7 +135,14 @@ func runC01(c *Ctx) {
 					}
 					cases, dflt, okd := decodeSelect(sel)
 					_ = cases
-					nextRead := func(x ssa.Instruction) bool { return x == ssa.Instruction(readCall) || isReturn(x) }
+					nextRead := func(x ssa.Instruction) bool {
+						for _, a := range altReads {
+							if x == ssa.Instruction(a) {
+								return true
+							}
+						}
+						return x == ssa.Instruction(readCall) || isReturn(x)
+					}
 					leak := false
 					if okd && dflt != nil {
 						if _, can := reachFromBlock(dflt, nextRead, isRel); can {
@@ -682,6 +710,31 @@ func runC01(c *Ctx) {
 				}
 			}
 			c.check(good && w.Fn == inserter, key, instrPos(w.Instr), "nextQid = loaded nextQid + 1 right after the load, in the allocator", why)
+		}
+		// every id registered in the waiter table was handed out by the counter: the key of every insert is a value
+		// loaded from nextQid (an id taken from elsewhere — the caller's own id, a fixed id — can be one that was
+		// released a moment ago, whose late reply then goes to the new owner)
+		for _, w := range p.whoWrites().byField[queueF] {
+			if w.Kind != "mapupdate" {
+				continue
+			}
+			mu := w.Instr.(*ssa.MapUpdate)
+			kv := mu.Key
+			if cv, ok := kv.(*ssa.Convert); ok {
+				kv = cv.X
+			}
+			tr := p.newTracer()
+			tr.throughCalls, tr.throughParams, tr.throughFields = false, false, false
+			fromCounter := true
+			src := ""
+			os := tr.origins(kv)
+			for _, o := range os {
+				if k, ok := loadedField(o); !ok || k != nq {
+					fromCounter, src = false, exprStr(o)
+				}
+			}
+			c.check(fromCounter && len(os) > 0, "registered-id-from-counter@"+funcName(w.Fn), instrPos(mu), "the registered id was read from the counter",
+				"the id registered in the waiter table comes from "+src+", not from the nextQid counter: it can be an id that an abandoned query released a moment ago, and that query's late reply is then delivered to the new owner")
 		}
 		// every load of the counter in the allocator is followed by the advance in its block
 		if inserter != nil {
